@@ -1,3 +1,4 @@
 //! R — the independent reference model (DESIGN §2.3).
 pub mod pkt;
 pub mod tcpopts;
+pub mod checksum;
